@@ -90,11 +90,11 @@ function judge(c, resps) {
   return { viol, obs: stable(got), clauses: ['factory', 'import-list'] };
 }
 
-function* cases() {
+function* cases(tier) {
   for (const entry of ['visitor', 'plugin']) for (const opt of [false, true]) for (const shape of Object.keys(SHAPES)) {
     for (const optimize of [false, true]) yield { entry, opt, shape, text: 'none', optimize };
     for (const text of Object.keys(TEXTS)) for (const style of Object.keys(STYLES)) for (const place of Object.keys(PLACEMENTS)) {
-      for (const extra of ['none', 'later', 'earlier']) if (!(extra === 'later' && place === 'trailing')) yield { entry, opt, shape, text, style, place, optimize: false, extra };
+      for (const extra of ['none', 'later', 'earlier']) if (!(extra === 'later' && place === 'trailing')) for (const optimize of [false, true]) yield { entry, opt, shape, text, style, place, optimize, extra };
     }
   }
 }
@@ -117,7 +117,7 @@ module.exports = {
   level: 'model_checking',
   rule: 'complete product comment style (block, JSDoc one-line / multi-line, line, tight) × placement (file head, before the 2nd / last top-level statement, after an import, inside a function body, trailing) × annotation text (@jsx name, name followed by more words, bare @jsx, @jsxImportSource / @jsxRuntime / @jsxFrag, prose, another name) × pragma option present/absent × module shape (one element; element + fragment in two statements; nested elements and fragments; component with slot) × entry (visitor, real plugin entry); each state is transformed by the real code and executed with recording stubs for every candidate factory: all element and fragment calls must land in exactly the expected factory (annotation at the head of the file or before a top-level statement wins over the option, everything else leaves createVNode), createVNode imported exactly once or not at all accordingly. Distinct = distinct call-count vectors.',
   assumptions: ['mock Vue runtime + global recording stubs', 'node evaluator', 'comments delivered to the plugin entry as SingleThreadedComments'],
-  spaces: () => [{ name: 'O:pragma', bounds: { styles: Object.keys(STYLES), placements: Object.keys(PLACEMENTS), texts: Object.keys(TEXTS), shapes: Object.keys(SHAPES), option: ['absent', '"pp"'], entries: ['visitor', 'plugin'] }, *gen() { yield* cases(); } }],
+  spaces: (tier) => [{ name: 'O:pragma', bounds: { styles: Object.keys(STYLES), placements: Object.keys(PLACEMENTS), texts: Object.keys(TEXTS), shapes: Object.keys(SHAPES), option: ['absent', '"pp"'], entries: ['visitor', 'plugin'] }, *gen() { yield* cases(tier); } }],
   requests, judge, shrink,
   caseKey: (c) => `${c.entry}:${c.opt ? 'pragma=pp ' : ''}${c.optimize ? 'optimize ' : ''}${c.shape}:${c.text === 'none' ? 'no comment' : c.place + ':' + JSON.stringify(STYLES[c.style](TEXTS[c.text].t)) + (c.extra && c.extra !== 'none' ? '+ordinary-comment-' + c.extra : '')}`,
   depth: (c) => (c.text === 'none' ? 0 : 1) + (c.opt ? 1 : 0),
